@@ -860,6 +860,10 @@ func (db *DB) Close(ctx context.Context) (err error) {
 	db.f = nil
 	db.opened = false
 	db.rtx = nil
+	// The in-memory sync state describes the WAL as seen while the read lock
+	// was held. It says nothing about the WAL after a reopen: the application
+	// may have written, checkpointed or truncated it in the meantime.
+	db.syncState = syncState{}
 	db.mu.Unlock()
 
 	if sqlDB != nil {
